@@ -299,10 +299,14 @@ class VarFacts:
         return st
 
     def state_at_term(self, b):
-        """facts holding just before the terminator of block b (None: block unreachable)"""
+        """facts holding just before the terminator of block b, merged over all partitions
+        (None: block unreachable)"""
         if self.IN[b] is None:
             return None
-        return self._stmts(b, dict(self.IN[b]))
+        j = None
+        for st in self.states_at_term(b):
+            j = self._join(j, st)
+        return j
 
     def _switch_key(self, b):
         body = self.body
@@ -425,8 +429,50 @@ class VarFacts:
                 out[k] = v | b[k]
         return out
 
+    # Partitioned states: facts about the discriminants of *workspace* enums (Command, AuthMechanism,
+    # ServerHandshakeStep, ...) are kept apart instead of being merged at control-flow joins: the state of
+    # a block is a set of fact dictionaries, one per distinct combination of values of those "partition
+    # keys"; all other keys (Option / ControlFlow / bool temporaries) are merged inside a partition.
+    # This keeps `mech = External  =>  command != Data` style correlations that rustc's match lowering
+    # relies on when several arms share a remainder block.
+    MAX_PARTS = 48
+
+    def _collect_partition_keys(self):
+        keys = set()
+        for b, t in mir.switches(self.body):
+            sc = mir.switch_scrutinee(self.body, b)
+            if sc[0] == "discr":
+                a = self.f.adts.get(sc[2])
+                if a and a.get("kind") == "Enum":
+                    keys.add(ckey(self.body, sc[1]))
+        return keys
+
+    def _sig(self, st):
+        return tuple(sorted(((k, tuple(sorted(v))) for k, v in st.items() if k in self.pkeys), key=repr))
+
+    def _add(self, s, ns):
+        """merge state ns into the partition set of block s; True when something changed"""
+        parts = self.INP[s]
+        if parts is None:
+            parts = self.INP[s] = {}
+        sg = self._sig(ns)
+        old = parts.get(sg)
+        new = self._join(old, ns)
+        if old is not None and new == old:
+            return False
+        parts[sg] = new
+        if len(parts) > self.MAX_PARTS:
+            allj = None
+            for st in parts.values():
+                allj = self._join(allj, st)
+            parts.clear()
+            parts[self._sig(allj)] = allj
+        return True
+
     def _run(self):
-        self.IN[0] = {}
+        self.pkeys = self._collect_partition_keys()
+        self.INP = [None] * self.n
+        self.INP[0] = {(): {}}
         work = [0]
         inq = {0}
         guard = 0
@@ -434,20 +480,32 @@ class VarFacts:
             b = work.pop(0)
             inq.discard(b)
             guard += 1
-            if guard > 200000:
+            if guard > 400000:
                 raise RuntimeError("VarFacts did not converge on " + self.body.id)
-            st = self._stmts(b, dict(self.IN[b]))
-            for s, ns in self._edges(b, st):
-                self.EDGE[(b, s)] = ns
-                if self.body.blocks[s].get("c"):
-                    continue
-                old = self.IN[s]
-                new = self._join(old, ns)
-                if old is None or new != old:
-                    self.IN[s] = new
-                    if s not in inq:
+            for st0 in list(self.INP[b].values()):
+                st = self._stmts(b, dict(st0))
+                for s, ns in self._edges(b, st):
+                    self.EDGE[(b, s)] = True
+                    if self.body.blocks[s].get("c"):
+                        continue
+                    if self._add(s, ns) and s not in inq:
                         work.append(s)
                         inq.add(s)
+        for b in range(self.n):
+            parts = self.INP[b]
+            if parts is None:
+                continue
+            j = None
+            for st in parts.values():
+                j = self._join(j, st)
+            self.IN[b] = j
+
+    def states_at_term(self, b):
+        """the partitioned facts holding just before the terminator of block b: a list of fact
+        dictionaries, one per combination of workspace-enum values under which b is reached"""
+        if self.INP[b] is None:
+            return []
+        return [self._stmts(b, dict(st)) for st in self.INP[b].values()]
 
     # -- queries
     def feasible_blocks(self):
